@@ -7,6 +7,7 @@ import (
 	"bytes"
 	"encoding/json"
 	"fmt"
+	"io"
 	"math"
 	"sort"
 	"strconv"
@@ -22,10 +23,36 @@ func Parse(b []byte) (any, error) {
 	if err := d.Decode(&v); err != nil {
 		return nil, err
 	}
-	if d.More() {
+	if _, terr := d.Token(); terr != io.EOF {
 		return nil, fmt.Errorf("trailing data")
 	}
+	if err := checkNumbers(v); err != nil {
+		return nil, err
+	}
 	return v, nil
+}
+
+// checkNumbers refuses number literals that are not finite IEEE-754 doubles (I-JSON).
+func checkNumbers(v any) error {
+	switch x := v.(type) {
+	case json.Number:
+		if _, err := strconv.ParseFloat(string(x), 64); err != nil {
+			return fmt.Errorf("number out of range: %s", x)
+		}
+	case []any:
+		for _, e := range x {
+			if err := checkNumbers(e); err != nil {
+				return err
+			}
+		}
+	case map[string]any:
+		for _, e := range x {
+			if err := checkNumbers(e); err != nil {
+				return err
+			}
+		}
+	}
+	return nil
 }
 
 // MustParse is Parse for harness-authored literals.
